@@ -22,7 +22,7 @@ ASSUMPTIONS = [
     "oracle 1 = independent RFC 6455 frame grammar over the written octets; oracle 2 = peer application's onMessage trace",
 ]
 BOUNDS = {
-    "quick": "2 messages per run, all ordered pairs of 6 send APIs, payload 0..3 free octets; fragmentSize/autoFragmentSize a free integer 1..n+1; chop sizes 1..3; every single cut of the wire stream for short streams; boundary lengths {125,126,127,128,129} client->server and {65535,65536} server->client with 2 free octets + fill; hand-over after the HTTP header at every cut position of the last 6 header octets",
+    "quick": "2 messages per run, all ordered pairs of 6 send APIs, payload 0..3 free octets; fragmentSize/autoFragmentSize a free integer 1..n+1; chop sizes 1..3; every single cut of the wire stream for short streams; boundary lengths {125,126,127,128,129} client->server and {65535,65536} server->client with 2 free octets + fill; hand-over after the HTTP header at every cut position of the last 6 header octets; control frames (ping/pong) between the fragments of a message through the frame and streaming APIs (ctl/ units)",
     "thorough": "3 messages per run over all API triples, payload 0..6 free octets, every 2-cut split for streams <= 24 octets, boundary lengths both directions, chop sizes 1..5",
 }
 EXPECT_COVERS = ["ctl-between-fragments", "deflate-mix", "aio", "api:message", "api:message-frag", "api:autofrag", "api:frame-frag", "api:streaming", "api:prepared", "sync-queue", "chopped",
